@@ -3,6 +3,7 @@
 package hk
 
 import (
+	"runtime"
 	"fmt"
 	"regexp"
 	"sort"
@@ -118,4 +119,27 @@ func uniq(s []string) []string {
 		}
 	}
 	return out
+}
+
+// Guard runs one pass-through (scheduler-less) case and turns a panic of the code under
+// test into a finding instead of a worker crash.
+func Guard(ctx *engine.Ctx, unit string, input any, f func()) {
+	defer func() {
+		if r := recover(); r != nil {
+			buf := make([]byte, 8192)
+			n := runtime.Stack(buf, false)
+			crash := fmt.Sprintf("panic: %v\n%s", r, buf[:n])
+			// drop our own frames and the panic machinery
+			var keep []string
+			for _, l := range strings.Split(crash, "\n") {
+				if strings.Contains(l, "runtime/panic.go") || strings.Contains(l, "harness/hk") || strings.HasPrefix(l, "panic(") {
+					continue
+				}
+				keep = append(keep, l)
+			}
+			crash = strings.Join(keep, "\n")
+			ctx.Fail(unit, CrashSig(crash), "the code under test panicked: "+crash, input, nil)
+		}
+	}()
+	f()
 }
